@@ -35,6 +35,10 @@ const PROGRAMS: &[(&str, &str, &str, &str)] = &[
      "(define k #f) (define n 0) (define trail '())",
      "(set! trail (cons (+ 1 (call/cc (lambda (c) (set! k c) 1))) trail)) (begin (set! n (+ n 1)) (if (< n 3) (k n) 'done))",
      "n trail"),
+    ("continuation-captured-deep",
+     "(define kd #f) (define cnt 0) (define (deepk n) (if (= n 0) (call/cc (lambda (c) (set! kd c) 0)) (+ 1 (deepk (- n 1)))))",
+     "(deepk 70) (set! cnt (+ cnt 1))",
+     "(if (< cnt 5) (begin (set! cnt (+ cnt 5)) (kd 1000)) cnt) cnt"),
     ("for-each-kth",
      "(define out '())",
      "(for-each (lambda (x) (set! out (cons (if (= x 2) (* x 10) x) out))) (list 1 2 3))",
@@ -467,7 +471,7 @@ pub fn run(ctx: &Ctx) -> i32 {
     );
     let acc = Acc::merge(a1, a2);
     rep.rule = format!(
-        "{} effectful session programs (global counters, a vector mutated in steps, closure state, map / for-each callbacks, non-tail recursion to depth 1 / 5 / 50, a stored continuation re-entered, definition and set! initialisers, eval, apply with a variadic callee, operator position, nested begin / let family) with {} expression positions in total; at every position every fault kind ({:?}) replaces the subexpression, and every program form is also replaced by each read-time fault ({:?}); each faulted form is evaluated once and twice in a row. The session continues with probes of every global, a fixed failing call (pf 3), the probes again and a succeeding form. Oracles: every form's value or failure equals the reference machine's (which aborts to top level keeping the completed effects; compile-time faults must run nothing); last_stacktrace() of (pf 3) equals the fresh-VM trace; sp after the session is the fresh-VM value; and for the deepest position of every form, sp, stack capacity and live heap after {} consecutive failures equal those after {}. Non-trivial = a session in which the injected fault was actually reached.",
+        "{} effectful session programs (global counters, a vector mutated in steps, closure state, map / for-each callbacks, non-tail recursion to depth 1 / 5 / 50, a stored continuation re-entered, a continuation captured 70 frames deep and re-entered after the failure, definition and set! initialisers, eval, apply with a variadic callee, operator position, nested begin / let family) with {} expression positions in total; at every position every fault kind ({:?}) replaces the subexpression, and every program form is also replaced by each read-time fault ({:?}); each faulted form is evaluated once and twice in a row. The session continues with probes of every global, a fixed failing call (pf 3), the probes again and a succeeding form. Oracles: every form's value or failure equals the reference machine's (which aborts to top level keeping the completed effects; compile-time faults must run nothing); last_stacktrace() of (pf 3) equals the fresh-VM trace; sp after the session is the fresh-VM value; and for the deepest position of every form, sp, stack capacity and live heap after {} consecutive failures equal those after {}. Non-trivial = a session in which the injected fault was actually reached.",
         PROGRAMS.len(), n_positions, FAULTS.iter().map(|f| f.0).collect::<Vec<_>>(), READ_FAULTS.iter().map(|f| f.0).collect::<Vec<_>>(), k_large, k_small
     );
     rep.extra("fault_sessions", json!(n));
